@@ -8,6 +8,9 @@ structure BkState where
   srv : Server := init {}
   order : List Nat := []        -- connection numbers in creation order
   closedSeen : List Nat := []   -- connections already reported closed
+  -- per connection: QoS>0 PUBLISH packets the MODEL has written and `bk.ack` has not yet completed,
+  -- oldest first: (id, qos, stage)
+  pend : List (Nat × List (Nat × Nat × Nat)) := []
   -- C12 oracle bookkeeping (history of the REAL broker's deliveries; never used by the model)
   pubs : List (String × Str × Str × Nat) := []            -- payload hex ↦ (origin id, topic, publish number)
   pubSeq : Nat := 0
@@ -67,6 +70,14 @@ def renderOuts (st : BkState) (outs : List Out) (sortTailOf : Option Nat) : BkSt
     | .event e => some e
     | .inline id t p => some s!"inline({id},{toHex t},{toHex p})"
     | _ => none)
+  let pend := outs.foldl (fun (pd : List (Nat × List (Nat × Nat × Nat))) o =>
+    match o with
+    | .wrote c (.publish _ m _) =>
+      if m.qos == 0 then pd else
+      let cur := (pd.find? (·.1 == c)).map (·.2) |>.getD []
+      if cur.any (·.1 == m.id) then pd else (pd.filter (·.1 != c)) ++ [(c, cur ++ [(m.id, m.qos, 0)])]
+    | _ => pd) st.pend
+  let st := { st with pend := pend }
   let out := " ".intercalate parts
   let out := if closedNow.isEmpty then out else out ++ " X[" ++ ",".intercalate (closedNow.map toString) ++ "]"
   let out := if evs.isEmpty then out else out ++ " E[" ++ ",".intercalate evs ++ "]"
@@ -172,6 +183,14 @@ def connVer (st : BkState) (conn : Nat) : Nat :=
   | some i => (getObj st.srv i).ver
   | none => 4
 
+/-- the pending entry with the smallest packet id, and the others -/
+def pendMin (l : List (Nat × Nat × Nat)) : Option ((Nat × Nat × Nat) × List (Nat × Nat × Nat)) :=
+  match l with
+  | [] => none
+  | x :: xs =>
+    let m := xs.foldl (fun a b => if b.1 < a.1 then b else a) x
+    some (m, l.filter (·.1 != m.1))
+
 /-- the CONNECT a `bk.conn` / `bk.connhold` line describes -/
 def parseConnect (ver clean cid : String) (kv : List String) : Option Connect := do
   let ver ← ver.toNat?
@@ -235,6 +254,18 @@ def brokerOpCore (st : BkState) (impl : String) : List String → Option (BkStat
     let pk ← parseInPk (connVer st n) rest
     let (st, out) := stepSearch st (.recvCut n pk) impl none [n]
     some (st, out, "ok", "-")
+  | ["bk.ack", n] => do
+    let n ← n.toNat?
+    if st.closedSeen.contains n || !(st.order.contains n) then some (st, "no-conn", "ok", "-") else
+    match pendMin ((st.pend.find? (·.1 == n)).map (·.2) |>.getD []) with
+    | none => some (st, "nothing-to-ack", "ok", "-")
+    | some ((id, q, stage), rest) =>
+      let (pk, rest') : InPk × List (Nat × Nat × Nat) :=
+        if q == 2 && stage == 0 then (.pubrec id 0, (id, q, 1) :: rest)
+        else if q == 2 then (.pubcomp id 0, rest) else (.puback id 0, rest)
+      let st := { st with pend := (st.pend.filter (·.1 != n)) ++ [(n, rest')] }
+      let (st, out) := stepSearch st (.recv n pk) impl none
+      some (st, out, "ok", "-")
   | ["bk.drop", n] => do
     let n ← n.toNat?
     if st.closedSeen.contains n || !(st.order.contains n) then some (st, "no-conn", "ok", "-") else
